@@ -2385,6 +2385,7 @@ class Wallet(object):
 
         if number_of_keys == 0:
             return []
+        account_id_arg = account_id
         network, account_id, _ = self._get_account_defaults(network, account_id)
         cosigner_id = cosigner_id if cosigner_id is not None else self.cosigner_id
         level_offset_key = level_offset
@@ -2404,6 +2405,9 @@ class Wallet(object):
         fullpath = path_expand(path, key_path, level_offset_key, account_id=account_id, cosigner_id=cosigner_id,
                                purpose=purpose, address_index=address_index, change=change,
                                witness_type=witness_type, network=network)
+        if account_id_arg is None and "account'" in key_path and key_path.index("account'") < len(fullpath):
+            # No account specified: the key belongs to the account its path names, not to the default account
+            account_id = int(fullpath[key_path.index("account'")].strip("'"))
 
         if self.multisig and self.cosigner:
             public_keys = []
